@@ -3,13 +3,13 @@ use crate::engine::{finish, RunInfo, Stats, Tier};
 use crate::props::search_common::*;
 use crate::world::net::{par_enumerate, GenSpec, LenMode, Net};
 use crate::world::sw::{Rate, Trav, TurnCfg, World};
-use routee_compass_core::model::unit::*;
 use routee_compass_core::model::network::{Edge, Vertex};
 use routee_compass_core::model::state::state_feature::StateFeature;
 use routee_compass_core::model::state::state_model::StateModel;
 use routee_compass_core::model::traversal::state::state_variable::StateVar;
 use routee_compass_core::model::traversal::traversal_model::TraversalModel;
 use routee_compass_core::model::traversal::traversal_model_error::TraversalModelError;
+use routee_compass_core::model::unit::*;
 use serde_json::{json, Value};
 use std::sync::Arc;
 
@@ -24,13 +24,26 @@ impl TraversalModel for RefusesBeyond {
     fn state_features(&self) -> Vec<(String, StateFeature)> {
         self.inner.state_features()
     }
-    fn traverse_edge(&self, t: (&Vertex, &Edge, &Vertex), s: &mut Vec<StateVar>, sm: &StateModel) -> Result<(), TraversalModelError> {
+    fn traverse_edge(
+        &self,
+        t: (&Vertex, &Edge, &Vertex),
+        s: &mut Vec<StateVar>,
+        sm: &StateModel,
+    ) -> Result<(), TraversalModelError> {
         if t.1.edge_id.0 == self.edge && s.first().map_or(false, |x| x.0 > self.limit) {
-            return Err(TraversalModelError::TraversalModelFailure(format!("edge {} cannot be entered beyond {}", self.edge, self.limit)));
+            return Err(TraversalModelError::TraversalModelFailure(format!(
+                "edge {} cannot be entered beyond {}",
+                self.edge, self.limit
+            )));
         }
         self.inner.traverse_edge(t, s, sm)
     }
-    fn estimate_traversal(&self, od: (&Vertex, &Vertex), s: &mut Vec<StateVar>, sm: &StateModel) -> Result<(), TraversalModelError> {
+    fn estimate_traversal(
+        &self,
+        od: (&Vertex, &Vertex),
+        s: &mut Vec<StateVar>,
+        sm: &StateModel,
+    ) -> Result<(), TraversalModelError> {
         self.inner.estimate_traversal(od, s, sm)
     }
 }
@@ -47,8 +60,16 @@ fn refusing_model_sweep(st: &mut Stats) {
             for e in 0..net.m() {
                 for limit in [0.5, 1.5, 2.5, 3.5] {
                     for k in [2usize, 3] {
-                        let algo = Algo::SingleVia { k, under: Box::new(Algo::Dijkstra), sim: Some(Sim::AcceptAll), term: None };
-                        let orient = Orient::Vertex { o: 0, d: Some(net.n - 1) };
+                        let algo = Algo::SingleVia {
+                            k,
+                            under: Box::new(Algo::Dijkstra),
+                            sim: Some(Sim::AcceptAll),
+                            term: None,
+                        };
+                        let orient = Orient::Vertex {
+                            o: 0,
+                            d: Some(net.n - 1),
+                        };
                         st.evaluations += 1;
                         st.transitions += 1;
                         st.traces += 1;
@@ -56,13 +77,22 @@ fn refusing_model_sweep(st: &mut Stats) {
                             Ok(si) => si,
                             Err(_) => continue,
                         };
-                        si.traversal_model = Arc::new(RefusesBeyond { inner: si.traversal_model.clone(), edge: e, limit });
+                        si.traversal_model = Arc::new(RefusesBeyond {
+                            inner: si.traversal_model.clone(),
+                            edge: e,
+                            limit,
+                        });
                         let out = run_search(&si, &algo, &orient, false, &json!({}));
                         st.outcome(out.kind());
-                        let comp = format!("{}.vertex_od.forward.model_refusing_an_edge", algo.component());
+                        let comp = format!(
+                            "{}.vertex_od.forward.model_refusing_an_edge",
+                            algo.component()
+                        );
                         let case = || json!({"world": w, "algo": algo, "orient": orient, "reverse": false, "extra": {"traversal_model_refuses_edge": e, "beyond_distance": limit}});
                         match &out {
-                            Outcome::Panic(p) => st.violation(&comp, "no_panic", net.size(), || p.clone(), case),
+                            Outcome::Panic(p) => {
+                                st.violation(&comp, "no_panic", net.size(), || p.clone(), case)
+                            }
                             Outcome::Ok { routes, .. } => {
                                 if routes.len() > 1 {
                                     st.nontrivial += 1;
@@ -75,7 +105,13 @@ fn refusing_model_sweep(st: &mut Stats) {
                                     }
                                     for (c, d) in route_structure(net, &ids, &orient, false) {
                                         ok = false;
-                                        st.violation(&comp, c, net.size() + ids.len() as u64, || format!("route #{} {:?}: {}", ri, ids, d), case);
+                                        st.violation(
+                                            &comp,
+                                            c,
+                                            net.size() + ids.len() as u64,
+                                            || format!("route #{} {:?}: {}", ri, ids, d),
+                                            case,
+                                        );
                                     }
                                 }
                                 if ok {
@@ -98,14 +134,29 @@ pub fn algos(tier: Tier) -> Vec<Algo> {
         Algo::Dijkstra,
         Algo::AStar(Some(1.0)),
         Algo::AStar(Some(10.0)),
-        Algo::SingleVia { k: 2, under: Box::new(Algo::Dijkstra), sim: Some(Sim::EdgeCos(0.99)), term: None },
-        Algo::SingleVia { k: 3, under: Box::new(Algo::AStar(Some(1.0))), sim: Some(Sim::DistCos(0.9)), term: None },
+        Algo::SingleVia {
+            k: 2,
+            under: Box::new(Algo::Dijkstra),
+            sim: Some(Sim::EdgeCos(0.99)),
+            term: None,
+        },
+        Algo::SingleVia {
+            k: 3,
+            under: Box::new(Algo::AStar(Some(1.0))),
+            sim: Some(Sim::DistCos(0.9)),
+            term: None,
+        },
     ];
     if tier == Tier::Thorough {
         v.push(Algo::AStar(Some(0.5)));
         v.push(Algo::AStar(Some(2.0)));
         v.push(Algo::AStar(None));
-        v.push(Algo::SingleVia { k: 3, under: Box::new(Algo::Dijkstra), sim: None, term: Some(KTerm::Factor(2)) });
+        v.push(Algo::SingleVia {
+            k: 3,
+            under: Box::new(Algo::Dijkstra),
+            sim: None,
+            term: Some(KTerm::Factor(2)),
+        });
     }
     v
 }
@@ -114,15 +165,33 @@ pub fn algos(tier: Tier) -> Vec<Algo> {
 pub fn speed_turn_world(net: &Net) -> World {
     let m = net.m();
     let speeds: Vec<f64> = (0..m).map(|e| [10.0, 30.0, 60.0][e % 3]).collect();
-    let headings: Vec<(i16, i16)> = (0..m).map(|e| ([0i16, 90, 180, 270, 350][e % 5], [0i16, 90, 180, 270, 350][(e * 2 + 1) % 5])).collect();
+    let headings: Vec<(i16, i16)> = (0..m)
+        .map(|e| {
+            (
+                [0i16, 90, 180, 270, 350][e % 5],
+                [0i16, 90, 180, 270, 350][(e * 2 + 1) % 5],
+            )
+        })
+        .collect();
     World {
         net: net.clone(),
-        trav: Trav::Speed { speed_unit: SpeedUnit::KilometersPerHour, dist_unit: DistanceUnit::Meters, time_unit: TimeUnit::Seconds, speeds },
+        trav: Trav::Speed {
+            speed_unit: SpeedUnit::KilometersPerHour,
+            dist_unit: DistanceUnit::Meters,
+            time_unit: TimeUnit::Seconds,
+            speeds,
+        },
         feat_dist_unit: DistanceUnit::Meters,
         feat_time_unit: TimeUnit::Seconds,
         init_dist: 0.0,
         init_time: 0.0,
-        turn: Some(TurnCfg { headings, delays: [0.0, 0.5, 1.0, 1.5, 2.0, 2.5, 3.0, 9.5], unit: TimeUnit::Seconds, blank_departure: vec![], no_departure_column: false }),
+        turn: Some(TurnCfg {
+            headings,
+            delays: [0.0, 0.5, 1.0, 1.5, 2.0, 2.5, 3.0, 9.5],
+            unit: TimeUnit::Seconds,
+            blank_departure: vec![],
+            no_departure_column: false,
+        }),
         w_dist: 0.0,
         w_time: 1.0,
         r_dist: Rate::Raw,
@@ -168,7 +237,13 @@ pub fn check_case(w: &World, algo: &Algo, orient: &Orient, reverse: bool, st: &m
     let si = match w.si() {
         Ok(si) => si,
         Err(e) => {
-            st.violation("harness", "si_build", 0, || e.clone(), || json!({"world": w}));
+            st.violation(
+                "harness",
+                "si_build",
+                0,
+                || e.clone(),
+                || json!({"world": w}),
+            );
             return;
         }
     };
@@ -185,7 +260,13 @@ pub fn check_case(w: &World, algo: &Algo, orient: &Orient, reverse: bool, st: &m
     let dirn = if reverse { "reverse" } else { "forward" };
     match &out {
         Outcome::Panic(p) => {
-            st.violation(&format!("{}.{}.{}", algo.component(), orient_name, dirn), "no_panic", size, || p.clone(), case);
+            st.violation(
+                &format!("{}.{}.{}", algo.component(), orient_name, dirn),
+                "no_panic",
+                size,
+                || p.clone(),
+                case,
+            );
         }
         Outcome::Ok { routes, trees, .. } => {
             if routes.len() > 1 || routes.iter().any(|r| r.len() > 1) {
@@ -207,7 +288,13 @@ pub fn check_case(w: &World, algo: &Algo, orient: &Orient, reverse: bool, st: &m
                     st.pass("route_is_contiguous_walk");
                 }
                 for (c, dtl) in bad {
-                    st.violation(&comp, c, size, || format!("route #{} {:?}: {}", ri, ids, dtl), case);
+                    st.violation(
+                        &comp,
+                        c,
+                        size,
+                        || format!("route #{} {:?}: {}", ri, ids, dtl),
+                        case,
+                    );
                 }
             }
             // trees: tree 0 is the (forward) search tree; single-via returns [fwd, rev]
@@ -223,7 +310,10 @@ pub fn check_case(w: &World, algo: &Algo, orient: &Orient, reverse: bool, st: &m
                     }
                     Orient::Edge { o, d } => {
                         if algo.is_ksp() && ti == 1 {
-                            (d.map(|d| net.edges[d].0).unwrap_or(net.edges[*o].1), Some(*o))
+                            (
+                                d.map(|d| net.edges[d].0).unwrap_or(net.edges[*o].1),
+                                Some(*o),
+                            )
                         } else {
                             (net.edges[*o].1, Some(*o))
                         }
@@ -233,7 +323,14 @@ pub fn check_case(w: &World, algo: &Algo, orient: &Orient, reverse: bool, st: &m
                     Orient::Edge { o, d } => edge_situation(net, *o, *d, None),
                     _ => "plain",
                 };
-                let comp = format!("{}.{}.{}.{}.tree{}", algo.component(), orient_name, dirn, sit, ti);
+                let comp = format!(
+                    "{}.{}.{}.{}.tree{}",
+                    algo.component(),
+                    orient_name,
+                    dirn,
+                    sit,
+                    ti
+                );
                 // the destination-edge entry injected by the edge-oriented wrapper hangs below the tail of the destination edge
                 let bad = tree_structure(net, t, root, tree_rev, origin_edge);
                 if bad.is_empty() {
@@ -261,12 +358,39 @@ pub fn for_net(net: &Net, tier: Tier, idx: u64, st: &mut Stats) {
         for algo in algos.iter() {
             // vertex oriented
             if !algo.is_ksp() {
-                check_case(w, algo, &Orient::Vertex { o: 0, d: Some(n - 1) }, false, st);
-                check_case(w, algo, &Orient::Vertex { o: 0, d: Some(n - 1) }, true, st);
+                check_case(
+                    w,
+                    algo,
+                    &Orient::Vertex {
+                        o: 0,
+                        d: Some(n - 1),
+                    },
+                    false,
+                    st,
+                );
+                check_case(
+                    w,
+                    algo,
+                    &Orient::Vertex {
+                        o: 0,
+                        d: Some(n - 1),
+                    },
+                    true,
+                    st,
+                );
                 check_case(w, algo, &Orient::Vertex { o: 0, d: None }, false, st);
                 check_case(w, algo, &Orient::Vertex { o: 0, d: None }, true, st);
             } else {
-                check_case(w, algo, &Orient::Vertex { o: 0, d: Some(n - 1) }, false, st);
+                check_case(
+                    w,
+                    algo,
+                    &Orient::Vertex {
+                        o: 0,
+                        d: Some(n - 1),
+                    },
+                    false,
+                    st,
+                );
             }
             // edge oriented: every ordered pair of distinct edges (stride for the more expensive algorithms)
             for o in 0..m {
@@ -299,25 +423,50 @@ pub fn app_layer(scratch: &crate::world::app::Scratch, net: &Net, st: &mut Stats
         let mut spec = AppSpec::simple(net.clone());
         spec.orientation = orientation.into();
         spec.algorithm = json!({"type": "a*", "weight_factor": 1.0});
-        spec.output_plugins = vec![json!({"type": "traversal", "route": "edge_id", "tree": "json", "geometry_input_file": "$DIR/geometries.txt"})];
+        spec.output_plugins = vec![
+            json!({"type": "traversal", "route": "edge_id", "tree": "json", "geometry_input_file": "$DIR/geometries.txt"}),
+        ];
         static APP_DIR_COUNTER: std::sync::atomic::AtomicU64 = std::sync::atomic::AtomicU64::new(0);
-        let dir = scratch.path.join(format!("a{}_{}_{}", net.hash_idx(), orientation, APP_DIR_COUNTER.fetch_add(1, std::sync::atomic::Ordering::Relaxed)));
+        let dir = scratch.path.join(format!(
+            "a{}_{}_{}",
+            net.hash_idx(),
+            orientation,
+            APP_DIR_COUNTER.fetch_add(1, std::sync::atomic::Ordering::Relaxed)
+        ));
         let app = match spec.build(&dir) {
             Ok(a) => a,
             Err(e) => {
-                st.violation("harness", "app_build", 0, || e.clone(), || json!({"net": net}));
+                st.violation(
+                    "harness",
+                    "app_build",
+                    0,
+                    || e.clone(),
+                    || json!({"net": net}),
+                );
                 return;
             }
         };
         let mut queries: Vec<(Value, Orient)> = vec![];
         if orientation == "vertex" {
-            queries.push((json!({"origin_vertex": 0, "destination_vertex": n - 1}), Orient::Vertex { o: 0, d: Some(n - 1) }));
-            queries.push((json!({"origin_vertex": 0}), Orient::Vertex { o: 0, d: None }));
+            queries.push((
+                json!({"origin_vertex": 0, "destination_vertex": n - 1}),
+                Orient::Vertex {
+                    o: 0,
+                    d: Some(n - 1),
+                },
+            ));
+            queries.push((
+                json!({"origin_vertex": 0}),
+                Orient::Vertex { o: 0, d: None },
+            ));
         } else {
             for o in 0..m {
                 for d in 0..m {
                     if o != d {
-                        queries.push((json!({"origin_edge": o, "destination_edge": d}), Orient::Edge { o, d: Some(d) }));
+                        queries.push((
+                            json!({"origin_edge": o, "destination_edge": d}),
+                            Orient::Edge { o, d: Some(d) },
+                        ));
                     }
                 }
             }
@@ -326,11 +475,23 @@ pub fn app_layer(scratch: &crate::world::app::Scratch, net: &Net, st: &mut Stats
         let res = match crate::engine::guarded(|| app.run(batch.clone(), None)) {
             Ok(Ok(r)) => r,
             Ok(Err(e)) => {
-                st.violation(&format!("app.{}", orientation), "run_returns_responses", net.size(), || e.to_string(), || json!({"net": net, "app_layer": true}));
+                st.violation(
+                    &format!("app.{}", orientation),
+                    "run_returns_responses",
+                    net.size(),
+                    || e.to_string(),
+                    || json!({"net": net, "app_layer": true}),
+                );
                 continue;
             }
             Err(p) => {
-                st.violation(&format!("app.{}", orientation), "no_panic", net.size(), || p.clone(), || json!({"net": net, "app_layer": true}));
+                st.violation(
+                    &format!("app.{}", orientation),
+                    "no_panic",
+                    net.size(),
+                    || p.clone(),
+                    || json!({"net": net, "app_layer": true}),
+                );
                 continue;
             }
         };
@@ -348,14 +509,23 @@ pub fn app_layer(scratch: &crate::world::app::Scratch, net: &Net, st: &mut Stats
             let case = || json!({"net": net, "app_layer": true, "query": q});
             let comp = format!("app.{}", orientation);
             if let Some(path) = r["route"]["path"].as_array() {
-                let ids: Vec<usize> = path.iter().filter_map(|x| x.as_u64().map(|v| v as usize)).collect();
+                let ids: Vec<usize> = path
+                    .iter()
+                    .filter_map(|x| x.as_u64().map(|v| v as usize))
+                    .collect();
                 if !ids.is_empty() {
                     let bad = route_structure(net, &ids, orient, false);
                     if bad.is_empty() {
                         st.pass("app_route_is_contiguous_walk");
                     }
                     for (c, d) in bad {
-                        st.violation(&comp, c, net.size(), || format!("route.path {:?}: {}", ids, d), case);
+                        st.violation(
+                            &comp,
+                            c,
+                            net.size(),
+                            || format!("route.path {:?}: {}", ids, d),
+                            case,
+                        );
                     }
                 }
             }
@@ -369,7 +539,13 @@ pub fn app_layer(scratch: &crate::world::app::Scratch, net: &Net, st: &mut Stats
                         if e >= net.m() {
                             return None;
                         }
-                        Some(TreeEntry { vertex: net.edges[e].1, parent: p, edge: e, cost: 0.0, state: vec![] })
+                        Some(TreeEntry {
+                            vertex: net.edges[e].1,
+                            parent: p,
+                            edge: e,
+                            cost: 0.0,
+                            state: vec![],
+                        })
                     })
                     .collect();
                 if entries.len() == tree.len() {
@@ -385,7 +561,13 @@ pub fn app_layer(scratch: &crate::world::app::Scratch, net: &Net, st: &mut Stats
                         st.violation(&comp, c, net.size(), || d.clone(), case);
                     }
                 } else {
-                    st.violation(&comp, "tree_edge_joins_parent_to_vertex", net.size(), || "tree output holds an edge that is not in the network".to_string(), case);
+                    st.violation(
+                        &comp,
+                        "tree_edge_joins_parent_to_vertex",
+                        net.size(),
+                        || "tree output holds an edge that is not in the network".to_string(),
+                        case,
+                    );
                 }
             }
         }
@@ -396,23 +578,121 @@ pub fn app_layer(scratch: &crate::world::app::Scratch, net: &Net, st: &mut Stats
 pub fn specs(tier: Tier) -> Vec<GenSpec> {
     match tier {
         Tier::Quick => vec![
-            GenSpec { n: 2, max_edges: 4, max_mult: 2, n_len: 2, self_loops: true, mode: LenMode::Alphabet },
-            GenSpec { n: 3, max_edges: 5, max_mult: 2, n_len: 2, self_loops: true, mode: LenMode::Alphabet },
-            GenSpec { n: 4, max_edges: 5, max_mult: 2, n_len: 1, self_loops: true, mode: LenMode::Alphabet },
-            GenSpec { n: 4, max_edges: 4, max_mult: 1, n_len: 2, self_loops: false, mode: LenMode::Metric },
-            GenSpec { n: 5, max_edges: 5, max_mult: 1, n_len: 1, self_loops: false, mode: LenMode::PowersOfTwo },
+            GenSpec {
+                n: 2,
+                max_edges: 4,
+                max_mult: 2,
+                n_len: 2,
+                self_loops: true,
+                mode: LenMode::Alphabet,
+            },
+            GenSpec {
+                n: 3,
+                max_edges: 5,
+                max_mult: 2,
+                n_len: 2,
+                self_loops: true,
+                mode: LenMode::Alphabet,
+            },
+            GenSpec {
+                n: 4,
+                max_edges: 5,
+                max_mult: 2,
+                n_len: 1,
+                self_loops: true,
+                mode: LenMode::Alphabet,
+            },
+            GenSpec {
+                n: 4,
+                max_edges: 4,
+                max_mult: 1,
+                n_len: 2,
+                self_loops: false,
+                mode: LenMode::Metric,
+            },
+            GenSpec {
+                n: 5,
+                max_edges: 5,
+                max_mult: 1,
+                n_len: 1,
+                self_loops: false,
+                mode: LenMode::PowersOfTwo,
+            },
             // uneven geometry on a line: with weight factors above 1 vertices are re-opened after they have been expanded
-            GenSpec { n: 4, max_edges: 4, max_mult: 1, n_len: 3, self_loops: false, mode: LenMode::LineMetric },
+            GenSpec {
+                n: 4,
+                max_edges: 4,
+                max_mult: 1,
+                n_len: 3,
+                self_loops: false,
+                mode: LenMode::LineMetric,
+            },
         ],
         Tier::Thorough => vec![
-            GenSpec { n: 2, max_edges: 6, max_mult: 2, n_len: 2, self_loops: true, mode: LenMode::Alphabet },
-            GenSpec { n: 3, max_edges: 6, max_mult: 2, n_len: 2, self_loops: true, mode: LenMode::Alphabet },
-            GenSpec { n: 4, max_edges: 6, max_mult: 2, n_len: 1, self_loops: true, mode: LenMode::Alphabet },
-            GenSpec { n: 4, max_edges: 5, max_mult: 1, n_len: 2, self_loops: false, mode: LenMode::Metric },
-            GenSpec { n: 4, max_edges: 5, max_mult: 2, n_len: 2, self_loops: false, mode: LenMode::Alphabet },
-            GenSpec { n: 5, max_edges: 6, max_mult: 1, n_len: 1, self_loops: false, mode: LenMode::PowersOfTwo },
-            GenSpec { n: 4, max_edges: 5, max_mult: 1, n_len: 3, self_loops: false, mode: LenMode::LineMetric },
-            GenSpec { n: 5, max_edges: 5, max_mult: 1, n_len: 2, self_loops: false, mode: LenMode::LineMetric },
+            GenSpec {
+                n: 2,
+                max_edges: 6,
+                max_mult: 2,
+                n_len: 2,
+                self_loops: true,
+                mode: LenMode::Alphabet,
+            },
+            GenSpec {
+                n: 3,
+                max_edges: 6,
+                max_mult: 2,
+                n_len: 2,
+                self_loops: true,
+                mode: LenMode::Alphabet,
+            },
+            GenSpec {
+                n: 4,
+                max_edges: 6,
+                max_mult: 2,
+                n_len: 1,
+                self_loops: true,
+                mode: LenMode::Alphabet,
+            },
+            GenSpec {
+                n: 4,
+                max_edges: 5,
+                max_mult: 1,
+                n_len: 2,
+                self_loops: false,
+                mode: LenMode::Metric,
+            },
+            GenSpec {
+                n: 4,
+                max_edges: 5,
+                max_mult: 2,
+                n_len: 2,
+                self_loops: false,
+                mode: LenMode::Alphabet,
+            },
+            GenSpec {
+                n: 5,
+                max_edges: 6,
+                max_mult: 1,
+                n_len: 1,
+                self_loops: false,
+                mode: LenMode::PowersOfTwo,
+            },
+            GenSpec {
+                n: 4,
+                max_edges: 5,
+                max_mult: 1,
+                n_len: 3,
+                self_loops: false,
+                mode: LenMode::LineMetric,
+            },
+            GenSpec {
+                n: 5,
+                max_edges: 5,
+                max_mult: 1,
+                n_len: 2,
+                self_loops: false,
+                mode: LenMode::LineMetric,
+            },
         ],
     }
 }
@@ -423,7 +703,9 @@ pub fn lane_nets() -> Vec<Net> {
     let mut out = vec![];
     for lanes in 2..=4usize {
         for code in 0..3usize.pow(lanes as u32) {
-            let lens: Vec<usize> = (0..lanes).map(|i| 1 + (code / 3usize.pow(i as u32)) % 3).collect();
+            let lens: Vec<usize> = (0..lanes)
+                .map(|i| 1 + (code / 3usize.pow(i as u32)) % 3)
+                .collect();
             let mut edges = vec![(0usize, 1usize, 1.0)];
             let mut next_v = 3;
             for (li, len) in lens.iter().enumerate() {
@@ -435,7 +717,11 @@ pub fn lane_nets() -> Vec<Net> {
                         next_v += 1;
                         next_v - 1
                     };
-                    edges.push((at, to, 1.0 + li as f64 * 0.75 + step as f64 * 0.01 + edges.len() as f64 * 0.001));
+                    edges.push((
+                        at,
+                        to,
+                        1.0 + li as f64 * 0.75 + step as f64 * 0.01 + edges.len() as f64 * 0.001,
+                    ));
                     at = to;
                 }
             }
@@ -465,24 +751,65 @@ pub fn run(tier: Tier) -> i32 {
     // re-opening sweep: five vertices and up to five metric edges under weighted A*: a vertex that was expanded is re-labelled
     // through a cheaper way found later; its tree entry and those of its children must still chain to the origin
     // (the uneven line, not the lattice: on the lattice an edge three times the straight line is never worth a detour)
-    let rspecs = vec![GenSpec { n: 5, max_edges: 5, max_mult: 1, n_len: 3, self_loops: false, mode: LenMode::LineMetric }];
+    let rspecs = vec![GenSpec {
+        n: 5,
+        max_edges: 5,
+        max_mult: 1,
+        n_len: 3,
+        self_loops: false,
+        mode: LenMode::LineMetric,
+    }];
     let st2 = par_enumerate(&rspecs, |_spec, net, st| {
         st.states += 1;
         let w = World::distance(net.clone());
         for algo in [Algo::AStar(Some(2.0)), Algo::AStar(Some(10.0))].iter() {
-            check_case(&w, algo, &Orient::Vertex { o: 0, d: Some(net.n - 1) }, false, st);
+            check_case(
+                &w,
+                algo,
+                &Orient::Vertex {
+                    o: 0,
+                    d: Some(net.n - 1),
+                },
+                false,
+                st,
+            );
         }
     });
     st.merge(st2);
     // the same with plain A* where edges are recorded shorter than the straight line between their end points (an estimate
     // that is inconsistent at weight factor 1)
-    let sspecs = vec![GenSpec { n: 5, max_edges: tier.pick(4, 5), max_mult: 1, n_len: 3, self_loops: false, mode: LenMode::LineShort }];
+    let sspecs = vec![GenSpec {
+        n: 5,
+        max_edges: tier.pick(4, 5),
+        max_mult: 1,
+        n_len: 3,
+        self_loops: false,
+        mode: LenMode::LineShort,
+    }];
     let st3 = par_enumerate(&sspecs, |_spec, net, st| {
         st.states += 1;
         let w = World::distance(net.clone());
         for algo in [Algo::AStar(None), Algo::AStar(Some(1.0))].iter() {
-            check_case(&w, algo, &Orient::Vertex { o: 0, d: Some(net.n - 1) }, false, st);
-            check_case(&w, algo, &Orient::Vertex { o: 0, d: Some(net.n - 1) }, true, st);
+            check_case(
+                &w,
+                algo,
+                &Orient::Vertex {
+                    o: 0,
+                    d: Some(net.n - 1),
+                },
+                false,
+                st,
+            );
+            check_case(
+                &w,
+                algo,
+                &Orient::Vertex {
+                    o: 0,
+                    d: Some(net.n - 1),
+                },
+                true,
+                st,
+            );
         }
     });
     st.merge(st3);
@@ -498,12 +825,57 @@ pub fn run(tier: Tier) -> i32 {
             let w = World::distance(net.clone());
             let m = net.m();
             for k in 2..=4usize {
-                for (under, sim) in [(Algo::Dijkstra, None), (Algo::Dijkstra, Some(Sim::AcceptAll)), (Algo::AStar(Some(1.0)), Some(Sim::EdgeCos(0.99)))] {
-                    let algo = Algo::SingleVia { k, under: Box::new(under), sim, term: None };
-                    check_case(&w, &algo, &Orient::Vertex { o: 0, d: Some(net.n - 1) }, false, st);
-                    check_case(&w, &algo, &Orient::Edge { o: 0, d: Some(m - 1) }, false, st);
-                    check_case(&w, &algo, &Orient::Edge { o: 1, d: Some(m - 2) }, false, st);
-                    check_case(&w, &algo, &Orient::Edge { o: 0, d: Some(m - 2) }, false, st);
+                for (under, sim) in [
+                    (Algo::Dijkstra, None),
+                    (Algo::Dijkstra, Some(Sim::AcceptAll)),
+                    (Algo::AStar(Some(1.0)), Some(Sim::EdgeCos(0.99))),
+                ] {
+                    let algo = Algo::SingleVia {
+                        k,
+                        under: Box::new(under),
+                        sim,
+                        term: None,
+                    };
+                    check_case(
+                        &w,
+                        &algo,
+                        &Orient::Vertex {
+                            o: 0,
+                            d: Some(net.n - 1),
+                        },
+                        false,
+                        st,
+                    );
+                    check_case(
+                        &w,
+                        &algo,
+                        &Orient::Edge {
+                            o: 0,
+                            d: Some(m - 1),
+                        },
+                        false,
+                        st,
+                    );
+                    check_case(
+                        &w,
+                        &algo,
+                        &Orient::Edge {
+                            o: 1,
+                            d: Some(m - 2),
+                        },
+                        false,
+                        st,
+                    );
+                    check_case(
+                        &w,
+                        &algo,
+                        &Orient::Edge {
+                            o: 0,
+                            d: Some(m - 2),
+                        },
+                        false,
+                        st,
+                    );
                 }
             }
         }
@@ -513,8 +885,18 @@ pub fn run(tier: Tier) -> i32 {
     // Yen's algorithm can hang on this tree; its routes are put through the same clauses inside the sandbox of C13
     st.notes.insert("yens: route clauses of C01 are evaluated on Yen's routes by the sandboxed C13 check (signature yens.*/route_*)".into());
     let mut desc: Vec<String> = specs.iter().map(|s| s.describe()).collect();
-    desc.extend(rspecs.iter().map(|s| format!("{} under A* weight factors 2/10 (re-opening sweep)", s.describe())));
-    desc.extend(sspecs.iter().map(|s| format!("{} under plain A* (re-opening sweep with an inconsistent estimate)", s.describe())));
+    desc.extend(rspecs.iter().map(|s| {
+        format!(
+            "{} under A* weight factors 2/10 (re-opening sweep)",
+            s.describe()
+        )
+    }));
+    desc.extend(sspecs.iter().map(|s| {
+        format!(
+            "{} under plain A* (re-opening sweep with an inconsistent estimate)",
+            s.describe()
+        )
+    }));
     desc.push(format!("{} lane networks (origin stub, 2-4 lanes of 1-3 edges, destination stub) under single-via k = 2..4, by vertex and by edge", n_lanes));
     desc.push("lane networks of up to eight edges under single-via k = 2, 3 with a traversal model that refuses one edge beyond an accumulated distance (every edge x four limits)".to_string());
     finish(
@@ -573,5 +955,9 @@ pub fn replay(case: &Value) -> i32 {
         }
     }
     println!("replay: violated in {}/16 executions", bad_runs);
-    if bad_runs > 0 { 1 } else { 0 }
+    if bad_runs > 0 {
+        1
+    } else {
+        0
+    }
 }
